@@ -25,7 +25,7 @@ From Coq Require Import String ZArith List Bool Arith Lia.
 From SK Require Import Model.Skel Model.Stm Model.CallCount Model.Lifecycle
      Model.LifecycleSk Spec.Lifecycle
      Proofs.CallCount Proofs.LifecycleProgress Proofs.LifecycleTop
-     Gen.Skeleton Gen.SkelTree Gen.Exprs.
+     Gen.Skeleton Gen.SkelTree Gen.Exprs Gen.XLifecycle.
 Import ListNotations.
 Local Open Scope list_scope.
 Local Open Scope nat_scope.
@@ -109,11 +109,14 @@ Theorem C10_several_files_use_the_pool : forall files : Z,
 Proof. intros files H. unfold run_uses_pool. apply Z.ltb_lt. exact H. Qed.
 
 (* ThreadManager.stop(): the extracted body, executed for either value of
-   the `running` flag it tests, makes exactly the calls the model's
+   the `running` flag it tests (the polarity of the test - `if running:` or
+   the early-return spelling `if not running: return` - comes from
+   Gen/XLifecycle.v), makes exactly the calls the model's
    MStop*/MJoin* steps stand for: nothing for a thread never started,
    otherwise event.set() and THEN thread.join(); the flag is written *)
 Theorem C10_thread_stop_is_model : forall running,
-  run_if running Exec sk_tm_stop = model_stop_calls running.
+  run_if (xorb tm_stop_test_negated running) Exec sk_tm_stop
+  = model_stop_calls running.
 Proof. intros [|]; vm_compute; reflexivity. Qed.
 
 Theorem C10_thread_stop_shape :
